@@ -143,6 +143,7 @@ pub fn build(tier: Tier) -> Vec<Arc<ExchCfg>> {
                         allow_giveup: giveup,
                         stop_boundary: stop,
                         arrive_to: vec![],
+                        extra_calls: false,
                     };
                     match ExchCfg::new("C01", r.cfg.clone(), r.body.clone(), srv.clone(), trailing.clone(), menu.clone()) {
                         Ok(mut c) => {
